@@ -2,7 +2,7 @@
 import z3
 
 from pyvc.contract import Loop, Shape, contract
-from pyvc.core import fresh_value, pack
+from pyvc.core import Unsupported, fresh_value, pack
 from pyvc.defaults import DEFAULT_POLICIES, SHAPES
 from pyvc.interp import _MISSING
 from pyvc.specs import SPEC_NS
@@ -154,4 +154,50 @@ contract(
     ghost={"vars": {"n_enter": "=0", "n_prune": "=0"}, "light_feasibility": True, "havoc_unknown_externals": True, "untracked": ["directory", "pyproject", "external_storage"]},
     safety_props=["C18"],
     assumes=["A-frame", "X13"],
+)
+
+# ---------------------------------------------------------------------------------------------- is_ci_run
+
+CI_VARS = ("CI", "bamboo.buildKey", "BUILD_ID", "BUILD_NUMBER", "BUILDKITE", "CIRCLECI", "CONTINUOUS_INTEGRATION", "GITHUB_ACTIONS", "HUDSON_URL",
+           "JENKINS_URL", "TEAMCITY_VERSION", "TRAVIS")
+
+
+def _env_nonempty(name):
+    return z3.Function("env_nonempty", z3.StringSort(), z3.BoolSort())(z3.StringVal(name))
+
+
+def p_environ_get(I, args, kwargs, node):
+    """os.environ.get(name, default): a non-empty string when the variable is set to one, otherwise something falsy (the default / '')"""
+    name = args[-2] if len(args) >= 2 else args[-1]
+    default = args[-1] if len(args) >= 2 else None
+    if not isinstance(name, str):
+        raise Unsupported("os.environ.get with a symbolic name")
+    if I.ctx.branch(_env_nonempty(name)):
+        v = fresh_value(I.ctx, STR, "env_" + name.replace(".", "_"))
+        I.ctx.assume(z3.Length(v.t) > 0)
+        return v
+    return default
+
+
+def s_env_nonempty(I, name):
+    return SV(_env_nonempty(name), BOOL)
+
+
+SPEC_NS.update({"env_nonempty": s_env_nonempty})
+
+contract(
+    PP + ".is_ci_run",
+    params={},
+    callees={"os.environ.get": p_environ_get, "environ.get": p_environ_get},
+    returns=None,
+    result_name="ret",
+    ensures={
+        # C06/C04: "when disabled (flag, CI, xdist, xfail) snapshot(v) returns v itself" / "a detected CI environment ... leave every file
+        # byte-identical": a CI server announces itself by *any* non-empty value of one of these variables (URLs, build numbers, version
+        # strings - not only "true"); PyCharm's test runner (PYCHARM_HOSTED) is not a CI server although it exports TEAMCITY_VERSION
+        "ci-iff-a-ci-variable-is-set [C06,C04]": "T(ret) == (not env_nonempty('PYCHARM_HOSTED') and (" + " or ".join(f"env_nonempty({v!r})" for v in CI_VARS) + "))",
+    },
+    frame=[],
+    safety_props=["C18"],
+    assumes=["X8"],
 )
